@@ -9,22 +9,36 @@ def run(rep: Report, repo: Repo, tier: str) -> None:
     rep.assume("os.walk(topdown=True) honours in-place pruning; os.path.join discards earlier components when a later one "
                "is absolute; os.path.relpath/basename return location-independent strings",
                "the predicates agree with the property's '*.cmake, case-insensitive' on every name except those the rule lists")
-    fsrules.rule_write_census(rep, repo, "C13-R1")
+    with rep.isolated():
+        fsrules.rule_write_census(rep, repo, "C13-R1")
     rep.floor("C13-R1", 10, "write-site obligations (guard + rooting)")
-    pathterms.rule_page_path(rep, repo, "C13-R2")
-    fsrules.rule_stem_agreement(rep, repo, "C13-R2s")
-    fsrules.rule_recursion_switch(rep, repo, "C13-R3")
-    fsrules.rule_no_mutation_while_iterating(rep, repo, "C13-R4a")
-    fsrules.rule_pruning_in_place(rep, repo, "C13-R4b")
-    fsrules.rule_predicates_agree(rep, repo, "C13-R4c")
-    fsrules.rule_same_source(rep, repo, "C13-R4d")
-    fsrules.rule_isolation(rep, repo, "C13-R5")
-    fsrules.rule_listing_before_creation(rep, repo, "C13-R6")
-    fsrules.rule_index_always_written(rep, repo, "C13-R7")
+    with rep.isolated():
+        pathterms.rule_page_path(rep, repo, "C13-R2")
+    with rep.isolated():
+        fsrules.rule_stem_agreement(rep, repo, "C13-R2s")
+    with rep.isolated():
+        fsrules.rule_recursion_switch(rep, repo, "C13-R3")
+    with rep.isolated():
+        fsrules.rule_no_mutation_while_iterating(rep, repo, "C13-R4a")
+    with rep.isolated():
+        fsrules.rule_pruning_in_place(rep, repo, "C13-R4b")
+    with rep.isolated():
+        fsrules.rule_predicates_agree(rep, repo, "C13-R4c")
+    with rep.isolated():
+        fsrules.rule_same_source(rep, repo, "C13-R4d")
+    with rep.isolated():
+        fsrules.rule_isolation(rep, repo, "C13-R5")
+    with rep.isolated():
+        fsrules.rule_listing_before_creation(rep, repo, "C13-R6")
+    with rep.isolated():
+        fsrules.rule_index_always_written(rep, repo, "C13-R7")
     # "under the output directory": the directory the user named, resolved when the run starts
     from .c16 import rule_output_dir_resolution
-    rule_output_dir_resolution(rep, repo, "C13-R8")
+    with rep.isolated():
+        rule_output_dir_resolution(rep, repo, "C13-R8")
     # "processed are the non-excluded files ... of every non-excluded subdirectory"
-    fsrules.rule_match_sites(rep, repo, "C13-R9")
+    with rep.isolated():
+        fsrules.rule_match_sites(rep, repo, "C13-R9")
     # ... and that set does not depend on where (or whether) output is written
-    fsrules.rule_mode_independence(rep, repo, "C13-R10")
+    with rep.isolated():
+        fsrules.rule_mode_independence(rep, repo, "C13-R10")
